@@ -32,6 +32,8 @@ func runC19(c *Ctx) {
 	if ts == nil {
 		return
 	}
+	c.Rule("R19.5", 1, "every field the templates read is modelled by the witnesses, or covered by witnesses in which it is set (= R8.7)")
+	unmodelledFields(c, "R19.5", ts)
 	set := buildSkeletons(c, "R19.1", ts, true)
 	defer set.cleanup()
 	if set == nil {
